@@ -230,6 +230,16 @@ def peel(n):
     return n
 
 
+def unblock(n):
+    """peel() plus trivial blocks `{ expr }` (no statements)."""
+    while True:
+        n = peel(n)
+        if isinstance(n, dict) and n.get("k") == "Block" and not n.get("stmts") and n.get("expr"):
+            n = n["expr"]
+            continue
+        return n
+
+
 def pat_binds(p, out=None):
     """All bindings (name, id) introduced by a pattern."""
     if out is None:
